@@ -210,11 +210,41 @@ def binding_selftest(ctx, events):
         vlib.write_ndjson(p, tr)
         r = vlib.run_tlc("CoreTrace", "CoreTrace.cfg", workers=1, timeout=120, trace=p, deque=True, heap="2g")
         results[name] = "rejected" if not r.ok else "ACCEPTED"
-    ctx.cov["binding_selftest"] = results
+    ctx.cov.setdefault("binding_selftest", {}).update(results)
     # dropping a delete is only detectable when that delete mattered; the two others must always be rejected
     for k in ("content_doc_removed", "meta_opstamp_changed"):
         if results.get(k) == "ACCEPTED":
             raise vlib.ToolError(f"binding self-test: corrupted trace ({k}) was accepted by CoreTrace")
+
+
+def impl_traces(ctx, runs, ops, seed):
+    """hook-level conformance: the IndexCore model itself (delete queue, cursors, registers, merges) is
+    stepped along real runs and must agree with the registers observed inside the critical sections"""
+    import impl_events
+    import tracecheck
+    tp = ctx.path("impl_trace.ndjson")
+    vlib.run_bin("core_driver", ["random", "--seed", seed, "--runs", runs, "--ops", ops, "--flush", "mix", "--threads", "mix",
+                                 "--merge", "mix", "--no-storage", "--term-deletes", "--out", tp], timeout=900)
+    raw = vlib.split_runs(vlib.read_ndjson(tp))
+    cr = [c for c in (impl_events.compact(r) for r in raw) if c]
+    n = tracecheck.validate_runs(ctx, cr, "impl", "ImplTrace", "ImplTrace.cfg",
+                                 key=lambda r: json.dumps([[e["e"], e.get("after"), e.get("t")] for e in r])[:3000],
+                                 nontrivial=lambda r: any(e["e"] == "regs" and e["after"] == "end_merge" for e in r) or any(e["e"] == "del" for e in r), timeout=300)
+    ctx.cov["traces_validated_against_impl"] += n
+    ctx.cov["hook_level_runs"] = len(cr)
+    log(f"[T] hook-level conformance of the IndexCore model: {n}/{len(cr)} runs accepted")
+    # binding self-test: without one hook's events the model cannot follow the run
+    if cr:
+        res = {}
+        for name, drop in (("no_segment_finalized_hook", lambda e: e["e"] == "seg_final"), ("no_registers_after_commit_hook", lambda e: e["e"] == "regs" and e["after"] == "commit")):
+            flat = [e for r in cr[:6] for e in r if not drop(e)]
+            p = ctx.path(f"selftest_{name}.ndjson")
+            vlib.write_ndjson(p, flat)
+            t = vlib.run_tlc("ImplTrace", "ImplTrace.cfg", workers=1, timeout=120, trace=p, deque=True, heap="2g")
+            res[name] = "rejected" if not t.ok else "ACCEPTED"
+        ctx.cov.setdefault("binding_selftest", {}).update(res)
+        if "ACCEPTED" in res.values():
+            raise vlib.ToolError(f"binding self-test: trace without a hook was accepted by ImplTrace: {res}")
 
 
 def known_finding_runs(ctx):
@@ -248,6 +278,7 @@ def run(ctx):
         random_histories(ctx, 200, 60, ctx.seed + 2000, label="rand_long")
     known_finding_runs(ctx)
     binding_selftest(ctx, ev2)
+    impl_traces(ctx, 60 if ctx.quick else 600, 25, ctx.seed + 3000)
     runs = vlib.split_runs(api_events(ev2))
     if runs:
         ctx.sample({"kind": "random history executed on the real writer (API events)", "events": [
